@@ -882,3 +882,16 @@ for _n, _s in HARNESSES.items():
         _k = _n.split("_")[1]
         _s["shared"] = dict(_s.get("shared", {}), **{"C06.arm%s.budget" % _k: sorted(set(_s.get("shared", {}).get("C06.arm%s.budget" % _k, [])) | {"C08"}),
                                                       "C06.arm%s.counts" % _k: sorted(set(_s.get("shared", {}).get("C06.arm%s.counts" % _k, [])) | {"C08"})})
+
+
+# waves 9-11: what the frame-assumption scans and their native replays are (and are not), stated in every claim that uses one
+_SCAN_NOTE = (" Frame assumptions of the contracts (%s) are checked syntactically on every run; when one does not hold on the tree under check, a native history replay on the real code "
+              "decides (%s): a failing replay is reported as a VIOLATION with its transcript, a passing one leaves a NOTE and an entry under `assumptions` — these replays are tests of one history each, "
+              "labelled as such, and are never counted as discharged obligations.")
+for _p, _a, _r in (("C02", "the patching core keeps no process-wide state; the injector keeps ONE Vec<PatchGuard> in installation order", "c02_relife, extracted AArch64 / ARM back ends, c02_overlap, c02_history"),
+                   ("C03", "the patching core keeps no process-wide state", "c03_many_fakes: k booleans + 300 replacements alive in one injector, victim pages fencing the trampoline page"),
+                   ("C04", "the process-wide guard is a plain exclusive MutexGuard field released by drop glue", "c04_restore_fault, c04_two_holders"),
+                   ("C05", "the patching core keeps no process-wide state that a refusal could leave behind", "c05_refusal_relife: refusal while another fake is installed, then a fresh thread's injector"),
+                   ("C16", "the 32-bit ARM back end only saves the bytes it reads at the entry, it never branches on them", "verif_native_arm_refake on the T1-extracted back end"),
+                   ("C17", "the injector's drop restores a guard only by dropping it (PatchGuard::drop flushes right after its write)", "c17_unwind_flush: flush requests observed by interposing __clear_cache")):
+    PROPS[_p]["level_note"] = PROPS[_p]["level_note"] + _SCAN_NOTE % (_a, _r)
